@@ -85,6 +85,17 @@ CHECKS = {
         note="modelled not verified: Python re/str classification tables above U+007F are parameters supplied by the harness per case; UTF-8 remote locale assumed.",
         design="DESIGN.md §5 C19",
         technique="Coq proof (stream-level splitter spec by induction on the chunk list, filter characterisation) + pipeline differential correspondence"),
+
+    "C12": dict(
+        text=("13 theorems over all environment scripts (Props/C12.v): every request to install interception is preceded by the verified "
+              "synchronisation string and the route message and happens at most once; readiness is reported only after the helper confirmed; "
+              "every trace that entered the try block contains the close of the helper channel before exit, whatever exception class ended "
+              "the loop (incl. failures inside the finally block); a dead ssh at any iteration ends the loop with Fatal; a wrong or missing "
+              "handshake never leads to a start request. Tied to /repo by running the real client.main/_main/FirewallClient/sdnotify with scripted "
+              "ssh.connect and runonce, exception injection at every step, and a real helper child process observing EOF."),
+        note="modelled not verified: the fork in daemonize (model continues in the grandchild), asynchronous exceptions between finally and fw.done(); that EOF at the helper triggers restoration is property C04.",
+        design="DESIGN.md §5 C12",
+        technique="Coq proof (trace function over environment scripts, case analysis and induction over the iteration list) + trace differential correspondence"),
 }
 
 NOT_YET = {}
